@@ -379,10 +379,7 @@ def check_c12(tier, seed, chk):
         violation(res, {"check": "list", "class": "malformed-tree"}, "the --list tree cannot be parsed back: %s" % errors[:3], r)
     want_nodes = set()
     for c in cases:
-        parts = c["path"].split("::")
-        if c["arg"] is not None:
-            parts = parts[:-1]
-        want_nodes.add("::".join(parts))
+        want_nodes.add(c["bench_path"])   # (not by splitting: a label may contain `::`)
     got_leaves = set(p for p, n in flatten(roots) if not n.children)
     if got_leaves != want_nodes and not errors:
         violation(res, {"check": "list", "class": "entries"}, "--list shows leaves %s..., the program defines %s..." % (sorted(got_leaves - want_nodes)[:4], sorted(want_nodes - got_leaves)[:4]), r)
@@ -456,8 +453,7 @@ def shown_leaves(model, sel, flag, runner=None):
             else:
                 out.add(c["path"])
         else:
-            parts = c["path"].split("::")
-            out.add("::".join(parts[:-1]) if c["arg"] is not None else c["path"])
+            out.add(c["bench_path"])
     return out
 
 
@@ -702,7 +698,6 @@ def check_c17(tier, seed, chk):
     jobs = []
     for b in arg_benches:
         mine = [c for c in cases if c["bench"] == b["id"]]
-        prefix = mine[0]["path"].rsplit("::", 1)[0] if not (b["types"] or b["consts"]) else None
         fam = "^" + re.escape(mine[0]["path"][: mine[0]["path"].index("::" + b["display_name"] + "::") + 2 + len(b["display_name"])]) + "::"
         labels = b["args"]
         subsets = [None]
